@@ -15,17 +15,18 @@ SecFor(c, a, rt) == IF rt = NoRate THEN NoD
                     ELSE IF c \in {"extract_pop", "compute_pop"} THEN DecMul(DecAbs(a), rt.r) ELSE DecMul(DecAbs(a), rt.inv)
 Row(c, day, p, a, rt, note) == [day |-> day, payee |-> p, amt |-> a, rate |-> rt, sec |-> SecFor(c, a, rt), note |-> note]
 
-Cfgs == {[atype |-> at, cols |-> cols, layout |-> lay, delim |-> dl, skip |-> sk, datefmt |-> df, order |-> ord, balance |-> bal, conv |-> cv] :
+Cfgs == {[atype |-> at, cols |-> cols, layout |-> lay, delim |-> dl, skip |-> sk, datefmt |-> df, order |-> ord, balance |-> bal, conv |-> cv, ruleconv |-> rc] :
            at \in {"asset", "liability"}, cols \in {"amount", "creditdebit"}, lay \in {"index", "label", "template"}, dl \in {",", ";"},
            sk \in {0, 2}, df \in {"%Y-%m-%d", "%d.%m.%Y"}, ord \in {"old_to_new", "new_to_old"}, bal \in BOOLEAN,
-           cv \in {"none", "extract_pos", "compute_pos", "extract_pop", "compute_pop", "disabled"}}
+           cv \in {"none", "extract_pos", "compute_pos", "extract_pop", "compute_pop", "disabled"}, rc \in {"none", "disabled"}}
 
 \* pairwise-ish reduction for the quick tier: every value of every dimension with the conversion and order dimensions crossed fully
 Reduced(c) == \/ (c.delim = "," /\ c.skip = 0 /\ c.datefmt = "%Y-%m-%d")
               \/ (c.delim = ";" /\ c.skip = 2 /\ c.datefmt = "%d.%m.%Y" /\ c.layout = "label")
 
 MCInit ==
-  /\ cfg \in {c \in Cfgs : (c.balance => c.atype = "asset") /\ (MaxRows > 2 \/ Reduced(c))}
+  /\ cfg \in {c \in Cfgs : (c.balance => c.atype = "asset") /\ (MaxRows > 2 \/ Reduced(c))
+                             /\ (c.ruleconv = "disabled" => c.conv \in {"extract_pos", "compute_pop"} /\ c.layout = "label")}
   /\ opening \in {D(0, 0), D(50000, 2)}
   /\ \E n \in 1..MaxRows :
        \E as \in [1..n -> Amounts], rts \in [1..n -> {NoRate, Rate2, RateHalf}] :
